@@ -81,6 +81,7 @@ func c26Hits(s *metrics.Store, prog string) map[string]int64 {
 }
 
 func runC26(c c26Case) *vstat.Failure {
+	vstat.Begin(c)
 	return vstat.Catch(func() *vstat.Failure { return runC26x(c) })
 }
 
